@@ -70,6 +70,9 @@ POINTS = {
     'conform': ['call'],
     'factory': OBJ_ENTRY,
     'generation': ENTRY,
+    # the reads of base generations made inside changed(), i.e. after a
+    # verifying lookup has found out that a base registry changed
+    'generation_changed': ENTRY,
 }
 CELLS = [(e, p) for p, es in sorted(POINTS.items()) for e in es]
 
@@ -234,7 +237,7 @@ def inject_case(draw):
     key = draw(key_strategy(1 if entry in ('lookup1', 'queryAdapter',
                                             'adapter_hook', 'call') else 0,
                             bp))
-    if point == 'generation':
+    if point in ('generation', 'generation_changed'):
         # needs a verifying registry with at least one base
         while len(bp['regs']) < 2:
             bp['regs'].append({'bases': [len(bp['regs']) - 1],
@@ -253,8 +256,9 @@ def inject_case(draw):
                            draw(st.booleans()), draw(key_strategy())])
         else:
             action.append(draw(mutation_op()))
-    if draw(st.integers(0, 3)) == 0 or (point == 'generation' and
-                                        draw(st.booleans())):
+    if draw(st.integers(0, 3)) == 0 or (
+            point in ('generation', 'generation_changed') and
+            draw(st.booleans())):
         # recipe: the callback first looks the interrupted key up itself
         # (filling the caches from the state of that moment) and then
         # changes a registry of the chain - in a base registry, which a
@@ -275,8 +279,9 @@ def inject_case(draw):
             'then_raise': draw(st.integers(0, 5)) == 0,
             'skip': draw(st.sampled_from(
                 [0, 0, 1, 2, 3, 4] if point == 'generation'
+                else [0, 0, 0, 1] if point == 'generation_changed'
                 else [0, 0, 0, 0, 0, 1])),
-            'bump': draw(st.booleans()),
+            'bump': draw(st.booleans()) or point == 'generation_changed',
             'warm': warm,
             'followup': [draw(mutation_op())
                          for _ in range(draw(st.integers(0, 2)))]}
@@ -296,8 +301,10 @@ def preempt_case(draw):
     # to a concurrent reader (it replaces every internal structure)
     mut = draw(mutation_op(allow_spec=False,
                            allow_rebuild=(direction == 'LM')))
-    if direction == 'ML' and draw(st.integers(0, 3)) == 0:
-        # a specification changing while lookups subscribe to it
+    if draw(st.integers(0, 3)) == 0 and direction in ('ML', 'LM'):
+        # a specification changing while lookups subscribe to it, or while
+        # a lookup walks the registries (nothing computed from the old
+        # orders may stay cached)
         mut = ['itoggle', draw(st.integers(0, 40)), draw(IDX)]
     warm = draw(st.lists(st.tuples(st.sampled_from(ENTRY[:9]),
                                    st.booleans()).map(list), max_size=2))
@@ -400,6 +407,34 @@ def preempt2_case(draw):
                  False, key]
         ys = [first, ['M', tmut()]]
         contents = contents + [['treg', 1, 3, 0, False, False]]
+    if draw(st.integers(0, 5)) == 0:
+        # template: a verifying registry S below a middle registry M below
+        # one of two tops that answer differently.  Either S's resolution
+        # order is outdated (M was re-based, nobody has looked since) and S
+        # itself is re-based while the lookup refreshes it, or M is
+        # re-based while the lookup below it refreshes: afterwards S must
+        # consult its current chain (repairs 29e531b, f64467c)
+        top = draw(st.sampled_from(['plain', 'verifying']))
+        mid = 'verifying' if top == 'verifying' else \
+            draw(st.sampled_from(['plain', 'verifying']))
+        bp['regs'] = [{'bases': [], 'flavour': top},
+                      {'bases': [], 'flavour': top},
+                      {'bases': [0], 'flavour': mid},
+                      {'bases': [2], 'flavour': 'verifying'}]
+        key[0] = 3
+        arity = len(key[1])
+        contents = contents + [
+            ['reg', 0, [['N']] * arity, key[2], key[3], False],
+            ['reg', 1, [['N']] * arity, key[2], key[3], False]]
+        x = ['L']
+        if draw(st.booleans()):
+            pre = [['rbases', 2, [1]]]
+            ys = [['M', ['rbases', 3, [draw(st.sampled_from([0, 1, 2]))]]]]
+        else:
+            pre = [['changed', 1]]
+            ys = [['M', ['rbases', 2, [1]]]]
+        if draw(st.integers(0, 2)) == 0:
+            ys.append(['L', entry, False, key])
     return {'kind': 'preempt2', 'bp': bp, 'contents': contents,
             'entry': entry, 'key': key, 'pre': pre, 'x': x, 'ys': ys,
             'warm': draw(st.lists(st.sampled_from(ENTRY[:9]), max_size=2)),
@@ -519,12 +554,14 @@ class _Hook:
     fired = 0
 
     skip = 0
+    in_changed = 0
 
     def reset(self):
         self.point = None
         self.fn = None
         self.fired = 0
         self.skip = 0
+        self.in_changed = 0
 
     def arm(self, point, fn, skip=0):
         self.point = point
@@ -576,11 +613,20 @@ def hooked_classes():
                 r = base._uncached_subscriptions(self, required, provided)
                 fire('uncached_after', self)
                 return r
+
+            def changed(self, originally_changed=None):
+                H.in_changed += 1
+                try:
+                    return base.changed(self, originally_changed)
+                finally:
+                    H.in_changed -= 1
         Hooked.__name__ = 'Hooked' + base.__name__
         return Hooked
 
     def _get(self):
         fire('generation', self)
+        if H.in_changed:
+            fire('generation_changed', self)
         return self.__dict__.get('_gen', 0)
 
     def _set(self, v):
@@ -1221,7 +1267,7 @@ def run_inject(case, cfg, out):
             state['raised'] = True
             raise Boom()
 
-    if point == 'generation' and case.get('bump'):
+    if point in ('generation', 'generation_changed') and case.get('bump'):
         # a base registry changed since the last lookup: the interrupted
         # call also runs the verifying changed()
         chain = W.U.model.ro(key[1])
